@@ -159,6 +159,12 @@ def run_chunk_items(chk, part, items, labels=None, chunk=4, max_report=3, env=No
 
 
 ENUM_DONE = []      # (name, alphabet set, max length completed)
+SPEED = [0.0]       # measured work units / second (only used to stop BETWEEN bounds in time)
+
+
+def enum_work(k, n):
+    """rough cost of one length: strings x parser runs per string x bytes per run"""
+    return (k ** n) * (2 ** max(n - 1, 0) + 6 * n + 12) * (n + 4)
 
 
 def part_enum(chk, fams):
@@ -170,12 +176,19 @@ def part_enum(chk, fams):
             if any(set(alpha) <= a2 and n <= m2 for a2, m2 in done):
                 completed = n
                 continue      # already covered by a superset alphabet
-            if chk.out_of_time(0.80):
-                chk.cap("enum %s: stopped before length %d (of %d)" % (name, n, maxlen))
+            work = enum_work(len(alpha), n)
+            predicted = work / SPEED[0] if SPEED[0] else 0.0
+            if chk.out_of_time(0.80) or chk.elapsed() + predicted > chk.budget * 0.92:
+                chk.cap("enum %s: stopped before length %d (of %d)%s" % (
+                    name, n, maxlen, "" if chk.out_of_time(0.80) else " -- predicted %.0f s would exceed the budget" % predicted))
                 stopped = True
                 break
             items = chunk_items_for_family(alpha, n)
+            t0 = chk.elapsed()
             nstr, runs, nviol = run_chunk_items(chk, "enum:%s" % name, items)
+            dt = chk.elapsed() - t0
+            if dt > 2.0:
+                SPEED[0] = work / dt     # work units per second at the current machine load
             chk.part("enum:%s" % name, **{"len%d_strings" % n: nstr})
             if nviol == 0 and nstr != len(alpha) ** n:
                 raise HarnessError("enum %s len %d: %d strings, expected %d" % (name, n, nstr, len(alpha) ** n))
@@ -368,8 +381,10 @@ def part_templates(chk, texts):
             seen.add(s)
             uniq.append(s)
     # cheap first; long ones cost O(n^2) runs
-    items = [jdn([Kw("str"), s]) for s in uniq]
-    nstr, runs, nsh = run_chunk_items(chk, "templates", items, chunk=60)
+    long_ = [s for s in uniq if len(s) > 64]
+    short = [s for s in uniq if len(s) <= 64]
+    nstr, runs, nsh = run_chunk_items(chk, "templates", [jdn([Kw("str"), s]) for s in long_], chunk=1)
+    nstr, runs, nsh = run_chunk_items(chk, "templates", [jdn([Kw("str"), s]) for s in short], chunk=60)
     chk.part("templates", hand_written=len(TEMPLATES), from_value_trees=len(uniq) - len(TEMPLATES), stride=stride,
              max_len=max(len(s) for s in uniq))
 
